@@ -23,10 +23,10 @@ CFG = {
         "result holds a bitset chunk": r"^dump b1 => .* nb=[1-9]",
     },
     "gaps": [
-        "C18: the header/dispatch skeleton is proved (C18_empty_partial, C18_no_panic_header_partial); the full statement "
-        "needs the container-level `&=` lemmas of the algebra family (Container.andAssignRef_spec) and C06's chunk lemmas; "
-        "until then it is covered by the correspondence and the driver's runtime !SPEC cross-check (result set = a ∩ "
-        "Spec.decode(s))",
+        "the full statement (C18_statement) is NOT proved; it needs the container-level `&=` lemmas of the algebra family (Container.andAssignRef) and C06's chunk lemmas",
+        'proved: C18_no_panic_release_partial (no panic for every operand and every byte string when debug assertions are off), C18_header_error_partial (an early end / invalid cookie inside the header is returned as that error, every build), C18_empty_left_partial (offset path, empty left operand), C18_header_cursor (the cursor reads the header exactly as the slice reader)',
+        "until then the property rests on the correspondence (conformant streams of every shape, truncations, D7 reproducer) and the driver's run-time cross-check elems(result) = a ∩ Spec.decode(s)",
+        'descrSearch models binary_search only on key-sorted descriptions (all conformant streams)',
     ],
     "level_text": "Lean model of both paths of intersection_with_serialized_unchecked over a seekable cursor, with theorems for "
                   "the header skeleton; result compared at run time with a ∩ Spec.decode(s) (independent reference decoder) "
